@@ -387,6 +387,65 @@ fn case_port_zero(cx: &mut Cx, cs: u64) {
     drop(live);
 }
 
+/// A blocking Unix socket with a SEND TIMEOUT (the caller set it, as the sink's documentation allows) and a server whose
+/// receive queue is full: after the timeout the kernel says EAGAIN, and that - kind, OS code and all - is what the caller
+/// gets; accepted datagrams are exactly the metric bytes.
+fn case_send_timeout(cx: &mut Cx, cs: u64) {
+    let mut r = Rng::new(cs ^ 0x71E0);
+    let dir = fresh_dir();
+    let path = dir.join("slow.sock");
+    let server = match UnixDatagram::bind(&path) {
+        Ok(s) => s,
+        Err(_) => return,
+    };
+    let sock = UnixDatagram::unbound().unwrap();
+    sock.set_write_timeout(Some(Duration::from_millis(15))).unwrap();
+    let fd = sock.as_raw_fd();
+    let buffered = r.chance(1, 2);
+    let sink: Box<dyn MetricSink> = if buffered { Box::new(BufferedUnixMetricSink::with_capacity(&path, sock, 8)) } else { Box::new(UnixMetricSink::from(&path, sock)) };
+    let label = if buffered { "BufferedUnixMetricSink(send timeout, full queue)" } else { "UnixMetricSink(send timeout, full queue)" };
+    cx.rep.eval();
+    cx.rep.obs("unix_sinks_on_a_socket_with_a_send_timeout_and_a_server_that_does_not_read", 1);
+    let n = 15;
+    for k in 0..n {
+        let m = format!("timeout.n{}:{}|c", k, r.below(1000));
+        let mark = interpose::mark();
+        let res = panics::guard(|| sink.emit(&m));
+        let recs: Vec<interpose::Rec> = interpose::since(mark).into_iter().filter(|x| x.fd == fd).collect();
+        let trace = jobj! {"sink" => label, "emit#" => k, "result" => format!("{:?}", res), "sendto_calls" => Json::Arr(recs.iter().map(|x| jobj!{"len" => x.payload.len(), "result" => x.result as i64, "errno" => x.errno}).collect())};
+        let res = match res {
+            Ok(x) => x,
+            Err(p) => {
+                cx.violation("C13", "no-panic", "emit-panicked", p, trace, cs);
+                break;
+            }
+        };
+        // the call's answer is the answer of the last send attempt it made (the buffered sink makes one when a line does not fit)
+        match (recs.last(), &res) {
+            (Some(rec), Err(e)) if rec.result < 0 => {
+                if e.raw_os_error() != Some(rec.errno) {
+                    cx.violation("C13", "returns-socket-error", "wrong-error", format!("{}: the socket failed with errno {} but emit returned {:?} (kind {:?}, OS code {:?})", label, rec.errno, e.to_string(), e.kind(), e.raw_os_error()), trace, cs);
+                    break;
+                }
+                cx.rep.obs("kernel_socket_errors_checked", 1);
+            }
+            (Some(rec), Ok(_)) if rec.result < 0 => {
+                cx.violation("C13", "returns-bytes-sent", "result-contradicts-socket", format!("{}: emit returned Ok although its send attempt failed with errno {}", label, rec.errno), trace, cs);
+                break;
+            }
+            (_, Err(e)) if recs.iter().all(|x| x.result >= 0) => {
+                cx.violation("C13", "returns-socket-error", "spurious-error", format!("{}: emit returned {:?} although no send attempt of this call failed", label, e.to_string()), trace, cs);
+                break;
+            }
+            _ => {}
+        }
+    }
+    cx.rep.distinct(&format!("send-timeout|{}", buffered));
+    drop(sink);
+    drop(server);
+    let _ = std::fs::remove_dir_all(dir);
+}
+
 fn case_unbuffered(cx: &mut Cx, cs: u64) {
     let mut r = Rng::new(cs);
     let udp = r.chance(1, 2);
@@ -1373,6 +1432,9 @@ fn main() {
                         }
                         if cs % 8 == 1 {
                             case_port_zero(&mut cx, cs);
+                        }
+                        if cs % 32 == 2 {
+                            case_send_timeout(&mut cx, cs);
                         }
                     }
                     "buffered" => case_buffered(&mut cx, cs),
